@@ -16,4 +16,4 @@ def replay(ctx, rec):
     return layout_engine.replay(ctx, 'C04', rec)
 
 
-CLAIM = {'text': 'C04_rule_sound: for the GENERATED criteria table, predicate semantics and construction rows (regenerated per run), whatever rule the first-match selection picks for an item -- any register spelling, ANY integer immediate -- the compressed operands are legal (Spec/Legal) and name an instruction whose Spec expansion (expand_c) has the same meaning as the 32-bit instruction (equal, or add rd,x0,rs for addi rd,rs,0): symbolic reduction of the generated pred_sem to numeric views + in-kernel sweep of the complete operand box of each of the 29 rules. C04_rule_semantics: the structural same-meaning test implies equality of the Spec step semantics from every state (sem_equiv; 4000-case analysis). C04_rule_encodes pushes this through the generated encoders with C01/C02/C06: the c.* encoder accepts, decode16 is legal, decode32 of the original word has the same meaning. C04_decided_on_final_value: rules only see immediates that can no longer change. C04_data_untouched: non-code items pass the compression passes unchanged. Falsifier: both modes of generated programs decoded and compared per source line with the extracted Spec, operands on both sides of every RVC operand-set edge, label-dependent immediates, compressible second halves of li/call/tail.', 'note': 'Trusted: as C03; the glue from item fields (strings) to numeric operands is by C04_spelling + correspondence, the premise wf_view (an item has only the fields of its mnemonic) is what the real parser produces (correspondence-tested). The step semantics is Spec/Sem.v (single hart, no traps).', 'technique': 'Coq proof: symbolic link to generated predicate semantics + exhaustive in-kernel sweeps per rule; two-mode differential falsifier with Spec decoding', 'design': '6/C04'}
+CLAIM = {'text': 'WHOLE PROGRAM (Proofs/Compress*.v, sub-agent): C04_program_literal -- for every program whose immediates are label-free (constants, arithmetic, %hi / %lo / %position on constants; any data, any aligns; parser-shaped items) and that the model assembles in both modes, the two chunk lists correspond SOURCE ITEM BY SOURCE ITEM in order: labels and constants contribute nothing, an align pads (N - p mod N) mod N for that run\'s own offset, data chunks are identical, instruction chunks are pairwise identical or a 32-bit word w against a halfword h with decode32 w = ins, decode16 h = ci and expand_c ci equivalent to ins (equal, or add rd,x0,rs for addi rd,rs,0); C04_program_transfers -- the same with branches / jal / beqz..bleu / j to labels: the pair satisfies retarget (both target the value of L in their own run\'s label table); C04_chunk_machine -- a non-identical pair does on the Spec machine, in one step of length 2, what the 32-bit instruction does; C04_item_pair / C04_item_transfer item level; C04_parser_flag. (call / tail, label values in data and constant targets are outside: K2 / K3 of C12.) RULE LEVEL: C04_rule_sound: for the GENERATED criteria table, predicate semantics and construction rows (regenerated per run), whatever rule the first-match selection picks for an item -- any register spelling, ANY integer immediate -- the compressed operands are legal (Spec/Legal) and name an instruction whose Spec expansion (expand_c) has the same meaning as the 32-bit instruction (equal, or add rd,x0,rs for addi rd,rs,0): symbolic reduction of the generated pred_sem to numeric views + in-kernel sweep of the complete operand box of each of the 29 rules. C04_rule_semantics: the structural same-meaning test implies equality of the Spec step semantics from every state (sem_equiv; 4000-case analysis). C04_rule_encodes pushes this through the generated encoders with C01/C02/C06: the c.* encoder accepts, decode16 is legal, decode32 of the original word has the same meaning. C04_decided_on_final_value: rules only see immediates that can no longer change. C04_data_untouched: non-code items pass the compression passes unchanged. Falsifier: both modes of generated programs decoded and compared per source line with the extracted Spec, operands on both sides of every RVC operand-set edge, label-dependent immediates, compressible second halves of li/call/tail.', 'note': 'Trusted: as C03; the glue from item fields (strings) to numeric operands is by C04_spelling + correspondence, the premise wf_view (an item has only the fields of its mnemonic) is what the real parser produces (correspondence-tested). The step semantics is Spec/Sem.v (single hart, no traps).', 'technique': 'Coq proof: symbolic link to generated predicate semantics + exhaustive in-kernel sweeps per rule; two-mode differential falsifier with Spec decoding', 'design': '6/C04'}
